@@ -185,7 +185,7 @@ class C10(Check):
     pid = 'C10'
     level = 'fault_enumeration'
     rule = ('1-3 producers (put sequences with gaps incl. 0, optional close, puts after close), 1-4 consumers mixing '
-            'single gets, bounded/unbounded iteration and gets inside until(time+d)/until(flag); optional enclosing '
+            'single gets, prepared (created, later performed) puts, bounded/unbounded iteration and gets inside until(time+d)/until(flag); optional enclosing '
             'until() that closes everybody, an outside consumer, and a final close+drain; Task.cancel injected at '
             'sampled (thorough: all) activation boundaries of every participant. non-trivial = a participant was '
             'cancelled/interrupted/closed while a receiver was waiting or an item was in flight, or close with '
